@@ -322,6 +322,10 @@ func WaitUntil(site, desc string, timeout time.Duration, cond func() bool) bool 
 
 // Sleep advances simulated time for the calling task.
 func Sleep(site string, d time.Duration) {
+	if d <= 0 {
+		Sync(site)
+		return
+	}
 	WaitUntil(site, "sleep", d, func() bool { return false })
 }
 
